@@ -4,6 +4,7 @@
 
 #include <stdlib.h>
 #include <string.h>
+#include <inttypes.h>
 
 #include "meta.h"
 #include "output.h"
@@ -49,7 +50,7 @@ static int contextSend(const MPT_STRUCT(reply_context_defer) *ctx, MPT_STRUCT(re
 	mpt_message_buf2id(rd->val, rd->len, &id);
 	
 	if (!ctx->reply.ptr) {
-		mpt_log(0, __func__, MPT_LOG(Warning), "%s %s",
+		mpt_log(0, __func__, MPT_LOG(Warning), "%s (%" PRIx64 "): %s",
 		        MPT_tr("unable to reply"), id, MPT_tr("no reply target available"));
 		return 0;
 	}
@@ -59,7 +60,7 @@ static int contextSend(const MPT_STRUCT(reply_context_defer) *ctx, MPT_STRUCT(re
 		rd->len = 0;
 	} else {
 		rd->val[0] &= 0x7f;
-		mpt_log(0, __func__, MPT_LOG(Error), "%s %s",
+		mpt_log(0, __func__, MPT_LOG(Error), "%s (%" PRIx64 "): %s",
 		        MPT_tr("unable to reply"), id, MPT_tr("reply send failed"));
 	}
 	return ret;
